@@ -194,7 +194,37 @@ def examine_sweep(case):
     return None
 
 
+def deep_logic(g, r, depth, fdepth=1):
+    """A random nest of !, parentheses, && and || (canonical parser shape) over basic expressions."""
+    if depth <= 0 or r.random() < 0.15:
+        return g.basic(fdepth, 0)
+    k = r.randrange(6)
+    if k == 0:
+        return ["not", ["paren", deep_logic(g, r, depth - 1, fdepth)]]
+    if k == 1:
+        return ["paren", deep_logic(g, r, depth - 1, fdepth)]
+    if k in (2, 3):
+        ops = []
+        for _ in range(r.randrange(2, 4)):
+            x = deep_logic(g, r, depth - 1, fdepth)
+            if x[0] in ("and", "or"):
+                x = ["paren", x] if x[0] == "or" or r.random() < 0.5 else x
+            if x[0] == "and":
+                x = ["paren", x]
+            ops.append(x)
+        return ["and", ops]
+    ops = []
+    for _ in range(r.randrange(2, 4)):
+        x = deep_logic(g, r, depth - 1, fdepth)
+        if x[0] == "or":
+            x = ["paren", x]
+        ops.append(x)
+    return ["or", ops]
+
+
 def force_grouping(g, r, fdepth=1):
+    if r.random() < 0.4:
+        return deep_logic(g, r, r.choice([2, 3, 3, 4]), fdepth)
     """Grouping-sensitive shapes: !(a == b), !(a && b), (a || b) && c, a && (b || c), !(!a), !(a) ..."""
     a, b, c = g.basic(fdepth, 1), g.basic(fdepth, 1), g.basic(fdepth, 1)
     cmp1 = ["cmp", r.choice(Q.OPS), g.singular(), g.literal()]
